@@ -229,6 +229,11 @@ func cmdCheck(args []string) int {
 		}
 	}
 	if *relock {
+		for _, r := range reps {
+			if r.Err != "" {
+				fmt.Printf("  RELOCK WARNING: %s produced no obligations: %s\n", r.Func, r.Err)
+			}
+		}
 		return writeLock(filepath.Join(*verif, "obligations.lock"), prop, order, func(b string) bool { return len(groups[b].fails) == 0 }, lock)
 	}
 
